@@ -199,6 +199,24 @@ Definition ex_req : list header :=
     (B "x-real-ip", B "6.6.6.6"); (B "X-Request-Id", B "r1"); (B "x-request-id", B "r2");
     (B "Accept", B "again"); (B "forwarded", B "for=6.6.6.6") ].
 
+(** The frontend's request policy is applied ONCE to a request, however many
+    backend connection attempts it takes (a refused backend, then another). *)
+Lemma after_attempts_later n r a hs : after_attempts n false r a hs = hs.
+Proof. induction n as [|k IH]; [reflexivity|]. cbn [after_attempts]. exact IH. Qed.
+
+Theorem policy_applied_once_across_retries : forall n r a hs,
+  after_attempts (S n) true r a hs = apply_rw r a hs.
+Proof. intros n r a hs. cbn [after_attempts]. apply after_attempts_later. Qed.
+
+(** what the unfixed router did (the policy applied per attempt): after one
+    retry an appended header is on the request twice *)
+Example policy_per_attempt_duplicates :
+  let r := mkrw None None [(B "X-Op", B "1")] in
+  apply_rw r (B "x") (apply_rw r (B "x") [(B "Accept", B "a")]) =
+    [(B "Accept", B "a"); (B "X-Op", B "1"); (B "X-Op", B "1")] /\
+  after_attempts 2 true r (B "x") [(B "Accept", B "a")] = [(B "Accept", B "a"); (B "X-Op", B "1")].
+Proof. vm_compute. split; reflexivity. Qed.
+
 Example id_name_nonvacuous :
   valid_id_name (c_idname ex_ctx) = true /\ valid_id_name (B "X-Request-Id") = false /\ valid_id_name (B "HOST") = false.
 Proof. vm_compute. repeat split; reflexivity. Qed.
